@@ -633,7 +633,8 @@ pub async fn check_pred(t: &Table, sql: &str, rows: &[(u64, u64, Row)], info: &I
         unit::push_case(&mut st.translate, sink, &cols, info, real_info, &nm, &optimized, tag);
     }
     // scan stream: the model's indexed scan, in-class cases included
-    if ast.is_plain() && ast.depth() < 40 {
+    // (zonemap_rows_not_contiguous: the model's indices are truthful by construction, the real zone map is not)
+    if ast.is_plain() && ast.depth() < 40 && !k5 {
         let out = match &with {
             Ok(a) => Some(format!("(Ok {})", coq::nlist(a.iter()))),
             Err(e) if e.starts_with("PANIC") => Some("Panic".to_string()),
